@@ -241,6 +241,18 @@ type FieldAccess struct {
 
 // fieldAccesses enumerates accesses to fields of *nt in the given functions.
 func fieldAccesses(fns []*ssa.Function, nt *types.Named) []FieldAccess {
+	// the Service's state includes the members of the structs it holds by value (roles.go: serviceStateTypes)
+	if len(serviceStateTypes) > 0 && nt == serviceStateTypes[0] {
+		var out []FieldAccess
+		for _, stt := range serviceStateTypes {
+			out = append(out, fieldAccesses1(fns, stt)...)
+		}
+		return out
+	}
+	return fieldAccesses1(fns, nt)
+}
+
+func fieldAccesses1(fns []*ssa.Function, nt *types.Named) []FieldAccess {
 	var out []FieldAccess
 	st := nt.Underlying().(*types.Struct)
 	for _, f := range fns {
@@ -255,6 +267,9 @@ func fieldAccesses(fns []*ssa.Function, nt *types.Named) []FieldAccess {
 					continue
 				}
 				fname := st.Field(fa.Field).Name()
+				if isServiceState(st.Field(fa.Field).Type()) {
+					continue // a nested state struct: its members are accounted for individually
+				}
 				for _, r := range *fa.Referrers() {
 					switch u := r.(type) {
 					case *ssa.Store:
